@@ -84,7 +84,15 @@ def classify_vmslot(line):
             # INSERT never enters the new slot in the slot map; deleted again before the rule ends, collectGarbage cannot see it (F24)
             causes.add('ghost-after-delete-of-slot-inserted-by-the-same-rule')
         else:
-            return None
+            # deleted, and later in the same rule (before the next pass snapshot) an INSERT or a TEMP_COPY: DELETE leaves the map cursor on the
+            # deleted slot's entry, INSERT steps the cursor back, the following NEXT returns to that entry with another current slot, and the
+            # next store into the map (TEMP_COPY, the end-of-rule store) overwrites the only reference collectGarbage could have found (F52)
+            nxt = next((i for i in range(de[-1] + 1, len(toks)) if toks[i].startswith('P')), len(toks))
+            later = [t for t in toks[de[-1] + 1:nxt] if (t.startswith('i') and t[1:2].isdigit()) or t.startswith('tc')]
+            if later and any(t.startswith('i') and t[1:2].isdigit() for t in later):
+                causes.add('ghost-after-delete-followed-by-insert-in-the-same-rule')
+            else:
+                return None
     return sorted(causes)[0] if len(causes) == 1 else None
 
 
